@@ -486,6 +486,19 @@ func runC20(r *mon.Run) {
 			modesCase(t, "rtie", c, integralOperand(t.Rng, c), dec.D{}, 0)
 		}
 	})
+	r.Parallel("kept-boundary", r.N(15000, 1000000), func(t *mon.T) {
+		c, x, j := gen.KeptBoundary(t.Rng)
+		switch t.Rng.Intn(3) {
+		case 0:
+			modesCase(t, "round", c, x, dec.D{}, 0)
+		case 1:
+			modesCase(t, "quantize", c, x, dec.D{}, x.E+j)
+		default:
+			x.E = -j
+			modesCase(t, "rtie", c, x, dec.D{}, 0)
+		}
+		t.Count("kept-boundary")
+	})
 	r.Parallel("relations", r.N(250000, 20000000), func(t *mon.T) { relationsCase(t, gen.Context(t.Rng)) })
 	// The exported Rounder.Round, called with a rounder other than the
 	// context's own: it must round the way Context.Round does on a context
